@@ -172,16 +172,17 @@ theorem splitExpr_dollar_word (hs : Str) (h : ∀ c ∈ hs, isWord c = true) : s
     cases hs with
     | nil => rfl
     | cons a t => simp [hnd a (by simp)]
-  have h4 : hs.takeWhile isWord = hs := takeWhile_all _ _ h
-  have h5 : hs.dropWhile isWord = [] := dropWhile_all _ _ h
+  have hsym : ∀ c ∈ hs, isSym c = true := fun c hc => by simp [isSym, h c hc]
+  have h4 : hs.takeWhile isSym = hs := takeWhile_all _ _ hsym
+  have h5 : hs.dropWhile isSym = [] := dropWhile_all _ _ hsym
   simp only [splitExpr, h3, h4, h5]
   simp
 
 theorem splitExpr_hexLit {n : Nat} {hs : Str} (h : IsHexLit n hs) : splitExpr ('$' :: hs) = none :=
   splitExpr_dollar_word hs (fun c hc => isHexD_isWord (List.all_eq_true.mp h.2 c hc))
 
-/-- a string that starts with a character which is neither `$` nor a word character -/
-theorem splitExpr_head_nonword (c : Char) (s : Str) (h1 : c ≠ '$') (h2 : isWord c = false) :
+/-- a string that starts with a character which is neither `$` nor a symbol character (word character or `@`) -/
+theorem splitExpr_head_nonword (c : Char) (s : Str) (h1 : c ≠ '$') (h2 : isSym c = false) :
     splitExpr (c :: s) = none := by
   have hd : (c == '$') = false := by simpa using h1
   simp [splitExpr, hd, h2]
@@ -194,11 +195,12 @@ theorem splitExpr_word_comma (l r : Str) (h : ∀ c ∈ l, isWord c = true) : sp
     have ha := h a (by simp)
     have hd : (a == '$') = false := by simpa using isWord_ne_dollar ha
     have h1 : ((a :: t) ++ ',' :: r).dropWhile (· == '$') = (a :: t) ++ ',' :: r := by simp [hd]
-    have hw : isWord ',' = false := by decide
-    have h2 : ((a :: t) ++ ',' :: r).takeWhile isWord = a :: t := by
-      rw [List.takeWhile_append_of_pos h]; simp [hw]
-    have h3 : ((a :: t) ++ ',' :: r).dropWhile isWord = ',' :: r := by
-      rw [List.dropWhile_append_of_pos h]; simp [hw]
+    have hw : isSym ',' = false := by decide
+    have hsym : ∀ c ∈ a :: t, isSym c = true := fun c hc => by simp [isSym, h c hc]
+    have h2 : ((a :: t) ++ ',' :: r).takeWhile isSym = a :: t := by
+      rw [List.takeWhile_append_of_pos hsym]; simp [hw]
+    have h3 : ((a :: t) ++ ',' :: r).dropWhile isSym = ',' :: r := by
+      rw [List.dropWhile_append_of_pos hsym]; simp [hw]
     have ho : opChar ',' = false := by decide
     simp only [splitExpr, h1, h2, h3]
     simp [ho]
